@@ -81,3 +81,77 @@ package evaluator
 //@   ensures[C11 shape] *a.Elements == old(*a.Elements) && a.Elements == old(a.Elements)
 //@   ensures[C11 panic-kind] err != nil ==> wraps(err, ErrPanic)
 //@   modifies (*a.Elements)[*]
+
+// copyRel1(r, v): r is what copyOrRef returns for a non-any value v.
+//@ pure copyRel1(r value, v value) bool = (isComposite(v) ==> r == v) && (is(v, *numVal) ==> is(r, *numVal) && ref(r) != 0 && same(r.(*numVal).V, v.(*numVal).V)) && (is(v, *stringVal) ==> is(r, *stringVal) && ref(r) != 0 && r.(*stringVal).V == v.(*stringVal).V) && (is(v, *boolVal) ==> is(r, *boolVal) && ref(r) != 0 && r.(*boolVal).V == v.(*boolVal).V)
+//@ pure copyRel(r value, v value) bool = copyRel1(r, v) && (is(v, *anyVal) ==> is(r, *anyVal) && ref(r) != 0 && r.(*anyVal).T == v.(*anyVal).T && copyRel1(r.(*anyVal).V, v.(*anyVal).V))
+// okValue(x): x is a language value as the evaluator builds them (an any never wraps an any).
+//@ pure okValue(x value) bool = isValue(x) && (is(x, *anyVal) ==> isValue(x.(*anyVal).V) && !is(x.(*anyVal).V, *anyVal))
+
+//@ func copyOrRef(val value) (r value)
+//@   props C09 C11 C02
+//@   requires okValue(val)
+//@   ensures[C09 C11 rel] copyRel(r, val)
+//@   ensures[C09 C11 fresh-basic] !isComposite(val) ==> fresh(r)
+//@   ensures[C09 fresh-any-inner] is(val, *anyVal) && !isComposite(val.(*anyVal).V) ==> fresh(r.(*anyVal).V)
+//@   ensures[C02 value] okValue(r)
+//@   mustfail ensures[C09 canary] r == val
+//@   modifies nothing
+
+//@ func (a *arrayVal) Slice(start value, end value) (r value, err error)
+//@   props C11 C09 C02
+//@   requires start != nil ==> is(start, *numVal) && start.(*numVal) != nil
+//@   requires end != nil ==> is(end, *numVal) && end.(*numVal) != nil
+//@   requires forall(j, int, 0 <= j && j < len(*a.Elements) ==> okValue((*a.Elements)[j]))
+//@   let n = len(*a.Elements)
+//@   let sv = start.(*numVal).V
+//@   let ev = end.(*numVal).V
+//@   let S = ite(start == nil, 0, normOf(sv, n))
+//@   let E = ite(end == nil, n, normOf(ev, n))
+//@   let re = *r.(*arrayVal).Elements
+//@   ensures[C11 ok-iff] err == nil <==> (start == nil || okBound(sv, n)) && (end == nil || okBound(ev, n)) && S <= E
+//@   ensures[C11 C09 fresh] err == nil ==> is(r, *arrayVal) && fresh(r) && fresh(r.(*arrayVal).Elements) && fresh(re) && len(re) == E-S
+//@   ensures[C11 C09 elements] err == nil ==> forall(j, int, 0 <= j && j < E-S ==> copyRel(re[j], (*a.Elements)[S+j]))
+//@   ensures[C11 C09 elements-fresh] err == nil ==> forall(j, int, 0 <= j && j < E-S && !isComposite((*a.Elements)[S+j]) ==> fresh(re[j]))
+//@   ensures[C11 panic-kind] err != nil ==> wraps(err, ErrPanic) && r == nil
+//@   mustfail ensures[C11 canary] err == nil ==> len(re) == n
+//@   modifies nothing
+//@   loop 1 invariant startIdx <= i && i <= endIdx && 0 <= startIdx && endIdx <= len(*a.Elements)
+//@   loop 1 invariant fresh(elements) && off(elements) == 0 && len(elements) == endIdx-startIdx
+//@   loop 1 invariant forall(j, int, 0 <= j && j < i-startIdx ==> copyRel(elements[j], (*a.Elements)[startIdx+j]))
+//@   loop 1 invariant forall(j, int, 0 <= j && j < i-startIdx && !isComposite((*a.Elements)[startIdx+j]) ==> fresh(elements[j]))
+//@   loop 1 modifies elements[*]
+//@   loop 1 decreases endIdx - i
+
+//@ func (s *stringVal) runes() (r []rune)
+//@   props C11 C13
+//@   ensures[C11 runes] len(r) == rlen(s.V) && off(r) == 0 && contents(r) == runes(s.V)
+//@   ensures[C11 same] s.V == old(s.V)
+//@   modifies s.runeSlice
+
+//@ func (s *stringVal) Index(idx value) (r value, err error)
+//@   props C11 C02
+//@   requires is(idx, *numVal) && idx.(*numVal) != nil
+//@   let v = idx.(*numVal).V
+//@   let n = rlen(s.V)
+//@   ensures[C11 ok-iff] err == nil <==> okIdx(v, n)
+//@   ensures[C11 element] err == nil ==> is(r, *stringVal) && fresh(r) && r.(*stringVal).V == fromRune(runes(s.V)[normOf(v, n)])
+//@   ensures[C11 panic-kind] err != nil ==> wraps(err, ErrPanic) && r == nil
+//@   ensures[C11 same] s.V == old(s.V)
+//@   mustfail ensures[C11 canary] err == nil ==> r.(*stringVal).V == s.V
+//@   modifies s.runeSlice
+
+//@ func (s *stringVal) Slice(start value, end value) (r value, err error)
+//@   props C11 C02
+//@   requires start != nil ==> is(start, *numVal) && start.(*numVal) != nil
+//@   requires end != nil ==> is(end, *numVal) && end.(*numVal) != nil
+//@   let n = rlen(s.V)
+//@   let sv = start.(*numVal).V
+//@   let ev = end.(*numVal).V
+//@   let S = ite(start == nil, 0, normOf(sv, n))
+//@   let E = ite(end == nil, n, normOf(ev, n))
+//@   ensures[C11 ok-iff] err == nil <==> (start == nil || okBound(sv, n)) && (end == nil || okBound(ev, n)) && S <= E
+//@   ensures[C11 substring] err == nil ==> is(r, *stringVal) && fresh(r) && r.(*stringVal).V == fromRunes(runes(s.V), S, E-S)
+//@   ensures[C11 panic-kind] err != nil ==> wraps(err, ErrPanic) && r == nil
+//@   ensures[C11 same] s.V == old(s.V)
+//@   modifies s.runeSlice
